@@ -621,6 +621,13 @@ void check_history(History const& h, Problem const& prob, OracleOpts const& opts
                     out.probe("step_limited_by_range");
                 if (lab == "tracking-cut")
                     out.probe("tracking_cut");
+                if (lab == "scat-klein-nishina" || lab == "ioni-moller-bhabha"
+                    || lab == "annihil-2-gamma")
+                {
+                    out.probe("real_model:" + lab);
+                    if (lab == "annihil-2-gamma" && b.energy == 0)
+                        out.probe("real_model:annihilation_at_rest");
+                }
             }
             for (auto const& sec : c.secondaries)
                 if (sec.particle == kNone)
@@ -662,10 +669,24 @@ void check_history(History const& h, Problem const& prob, OracleOpts const& opts
                 pending_sec.insert(
                     init_key(a.event, a.track, sec.particle, sec.energy, c.pos, sec.dir, c.time));
                 if (opts.c01 && !(sec.energy > 0))
+                {
+                    // Recorded regime: the track lost all its energy inside the
+                    // step (deposit == pre-step energy) and was then forced into
+                    // a discrete interaction sampled from the PRE-step cross
+                    // sections, so a model whose cross section is zero at rest
+                    // (real Moller-Bhabha, not using the integral approach) was
+                    // invoked with zero incident energy.
+                    std::string fp = "secondary-nonpositive-energy";
+                    if (c.post_action < prob.action_labels.size()
+                        && prob.action_labels[c.post_action] == "ioni-moller-bhabha"
+                        && b.energy > 0 && c.step_length > 0
+                        && c.deposit >= b.energy * (1 - 1e-12))
+                        fp += ":moller-bhabha-forced-at-rest-by-pre-step-xs";
                     out.violate("C01",
                                 "secondary-nonpositive-energy",
-                                "secondary-nonpositive-energy",
+                                fp,
                                 "secondary with non-positive energy: " + fmt_slot(f, s, c));
+                }
             }
         }
 
